@@ -49,6 +49,9 @@ func allPairs() []pairJob {
 	var out []pairJob
 	for gi := range groups {
 		g := &groups[gi]
+		if only := os.Getenv("C35_GROUP"); only != "" && only != g.Name {
+			continue // experiments / replay: restrict to one activity group
+		}
 		for i := range g.Acts {
 			for j := i; j < len(g.Acts); j++ {
 				ai, aj := g.Acts[i], g.Acts[j]
